@@ -624,6 +624,12 @@ pub fn generate(seed: u64, opts: &GenOptions) -> Scenario {
         let sender_idx = (0..n_eoa).find(|i| eoa(*i) == tx.caller).unwrap();
         // nonces of later txs of this sender follow the in-order truth unless we break them on purpose
         tx.nonce = (tx.nonce as i64 + nonce_shift[sender_idx]).max(0) as u64;
+        if tx.label == "tx-from-authority-stale" {
+            // the nonce an earlier authorisation of this block has consumed
+            tx.nonce = tx.nonce.saturating_sub(1);
+            nonce_shift[sender_idx] -= 1;
+            continue;
+        }
         if g.rng.below(100) >= invalid_rate {
             continue;
         }
